@@ -19,30 +19,29 @@ pub enum ChildResult {
 
 /// Run `svcheck worker pp <spec>` with a watchdog.
 pub fn run_child(spec: &Value, dir: &Path, budget_s: u64) -> Result<ChildResult, String> {
-    run_child_limited(spec, dir, budget_s, None)
+    run_child_with(spec, dir, budget_s, "")
 }
 
 /// `run_child` with an address-space limit for the child (ulimit -v, in KiB): a runaway allocation ends the child
 /// instead of the machine's memory.
 pub fn run_child_limited(spec: &Value, dir: &Path, budget_s: u64, mem_limit_kb: Option<u64>) -> Result<ChildResult, String> {
+    match mem_limit_kb {
+        Some(kb) => run_child_with(spec, dir, budget_s, &format!("ulimit -v {}; ", kb)),
+        None => run_child_with(spec, dir, budget_s, ""),
+    }
+}
+
+/// Run `svcheck worker pp <spec>` with a watchdog, behind `limits` (shell commands such as "ulimit -n 256; ").
+/// The child always gets the usual 8 MiB stack (./check raises the limit for the harness itself): a bound that multiplies
+/// instead of adding shows as a stack overflow of the child, not as a long but successful run.
+pub fn run_child_with(spec: &Value, dir: &Path, budget_s: u64, limits: &str) -> Result<ChildResult, String> {
     let exe = std::env::current_exe().map_err(|e| e.to_string())?;
     let spec_path = dir.join("spec.json");
     std::fs::write(&spec_path, serde_json::to_string(spec).unwrap()).map_err(|e| e.to_string())?;
     let out_path = dir.join("child_out.json");
     let out_file = std::fs::File::create(&out_path).map_err(|e| e.to_string())?;
-    let mut cmd = match mem_limit_kb {
-        None => {
-            let mut c = std::process::Command::new(&exe);
-            c.arg("worker").arg("pp").arg(&spec_path);
-            c
-        }
-        Some(kb) => {
-            let mut c = std::process::Command::new("sh");
-            // (the stack is set to the usual 8 MiB as well: ./check raises it for the harness itself)
-            c.arg("-c").arg(format!("ulimit -s 8192; ulimit -v {}; exec \"$0\" worker pp \"$1\"", kb)).arg(&exe).arg(&spec_path);
-            c
-        }
-    };
+    let mut cmd = std::process::Command::new("sh");
+    cmd.arg("-c").arg(format!("ulimit -s 8192; {}exec \"$0\" worker pp \"$1\"", limits)).arg(&exe).arg(&spec_path);
     let mut child = cmd
         .current_dir(dir)
         .stdout(out_file)
